@@ -45,6 +45,19 @@ def doc_case(rng, **kw):
     raise RuntimeError("no supported module generated")
 
 
+M2_YANG = """module m2 { yang-version 1.1; namespace "urn:verif:m2"; prefix %s;
+  import ietf-yang-metadata { prefix md; }
+  md:annotation tag { type string; }
+}"""
+
+
+def add_meta(rng, forest, mod, name, prob=0.3):
+    for n in forest:
+        if rng.random() < prob:
+            n.meta.insert(rng.randrange(len(n.meta) + 1), (mod, name, gens.yang_string(rng, 4).decode("utf-8", "replace")))
+        add_meta(rng, n.children, mod, name, prob)
+
+
 BASE = PRINT_SIBLINGS | PRINT_SHRINK
 # (format, options): JSON in trim mode exercises the array / first_leaflist bookkeeping with non-uniform selections
 PRINTS = [("x", BASE | WD_EXPLICIT), ("x", BASE | WD_ALL), ("x", BASE | WD_TRIM), ("x", BASE | WD_EXPLICIT | PRINT_KEEPEMPTY),
@@ -67,24 +80,35 @@ class DocModel(Comp):
             if i % 5 == 0:
                 ig.edp = 0.8
             f = ig.forest(m)
+            # a second module that only contributes an annotation: with another prefix, or (legal) with the SAME prefix as
+            # the data module - the XML printer then has to number the prefix (91f0178)
+            extra = ()
+            if i % 6 == 0:
+                pf = "m1" if i % 12 == 0 else "mx"
+                extra = (("m2", pf, "urn:verif:m2"),)
+                add_meta(rng, f, "m2", "tag")
             s = Script()
             s.ctx()                                                       # 0
-            s.mod(m.yang())                                               # 1
-            s.parse(0, "x" if i % 2 else "j", yanggen.to_xml(f) if i % 2 else yanggen.to_json(f))     # 2
-            s.dump(0)                                                     # 3
+            if extra:
+                s.mod(M2_YANG % extra[0][1])
+            s.mod(m.yang())
+            s.parse(0, "x" if (i % 2 and not extra) else "j", yanggen.to_xml(f) if (i % 2 and not extra) else yanggen.to_json(f))
+            s.dump(0)
             for fmt, po in PRINTS:
-                s.print(0, fmt, po)                                       # 4..
-            pre.append((m, s))
-        outs = stage1([s.line() for _, s in pre])
+                s.print(0, fmt, po)
+            pre.append((m, s, extra))
+        outs = stage1([s.line() for _, s, _ in pre])
         L = []
-        for (m, s), out in zip(pre, outs):
+        for (m, s, extra), out in zip(pre, outs):
             r = results(out)
-            if len(r) < 5 + len(PRINTS) or r[0] != "0" or r[1] != "0" or rc(r[2]) != 0:
+            k0 = len(extra)                 # commands before the data module
+            if len(r) < 5 + k0 + len(PRINTS) or any(x != "0" for x in r[:2 + k0]) or rc(r[2 + k0]) != 0:
                 continue                    # module or instance rejected: not a case for this component
+            r = r[k0:]
             if any(rc(x) != 0 for x in r[4:4 + len(PRINTS)]):
                 continue
-            cmds = [pseudo("s", treeenc.schema_line(m)), pseudo("n", treeenc.name_table(m)), pseudo("m", docenc.mods_table(m)),
-                    pseudo("k", docenc.jkinds(m)), pseudo("d", r[3])]
+            cmds = [pseudo("s", treeenc.schema_line(m)), pseudo("n", treeenc.name_table(m)),
+                    pseudo("m", docenc.mods_table(m, extra)), pseudo("k", docenc.jkinds(m)), pseudo("d", r[3])]
             for (fmt, po), x in zip(PRINTS, r[4:4 + len(PRINTS)]):
                 cmds.append(pseudo("b", "%s %d %s" % (fmt, po, hexs(payload(x)))))
             L.append("docm\t" + "\t".join(cmds + s.cmds))
@@ -93,8 +117,9 @@ class DocModel(Comp):
     def norm(self, line, out):
         if " | end:" in out:              # implementation
             r = results(out)
-            npseudo = sum(1 for c in line.split("\t")[1:] if c.startswith("#"))
-            r = r[npseudo:]
+            cs = line.split("\t")[1:]
+            npseudo = sum(1 for c in cs if c.startswith("#"))
+            r = r[npseudo + sum(1 for c in cs if c.startswith("mod ")) - 1:]     # (an annotation module precedes the data module)
             ans = ["W=1111111"]
             for (fmt, po), x in zip(PRINTS, r[4:4 + len(PRINTS)]):
                 if rc(x) != 0:
